@@ -81,6 +81,16 @@ func (commitmentProof *CommitmentProof) Validate() error {
 			len(commitmentProof.RowProof.RowRoots),
 		)
 	}
+	for i, subtreeRootProof := range commitmentProof.SubtreeRootProofs {
+		if subtreeRootProof == nil {
+			return fmt.Errorf("subtree root proof %d is nil", i)
+		}
+	}
+	for i, rowProof := range commitmentProof.RowProof.Proofs {
+		if rowProof == nil {
+			return fmt.Errorf("row proof %d is nil", i)
+		}
+	}
 	return nil
 }
 
